@@ -14,6 +14,8 @@ others the notes (`unionNotes`, `interNotes`, `bagNotes`, `exclNotes`) are exact
 -/
 import OpenFGAVerif.Proofs.ListUsersSem
 
+set_option linter.unusedSectionVars false
+
 namespace OpenFGAVerif.ListUsers
 
 section
